@@ -13,7 +13,7 @@ def _as_dt(s: str):
         return None
 
 
-def jdiff(expected: Any, got: Any, path: str = "$") -> str | None:
+def jdiff(expected: Any, got: Any, path: str = "$", optional_keys: set | None = None) -> str | None:
     """None when `got` equals `expected` under the tolerances the properties state:
        * 1 == 1.0 but bool != number;
        * date-times compare by instant/offset, not spelling (Z vs +00:00);
@@ -40,17 +40,17 @@ def jdiff(expected: Any, got: Any, path: str = "$") -> str | None:
         if len(expected) != len(got):
             return f"{path}: list length {len(expected)} != {len(got)}"
         for i, (a, b) in enumerate(zip(expected, got)):
-            d = jdiff(a, b, f"{path}[{i}]")
+            d = jdiff(a, b, f"{path}[{i}]", optional_keys)
             if d:
                 return d
         return None
     if isinstance(expected, dict) and isinstance(got, dict):
         for k, v in expected.items():
             if k not in got:
-                if v is None:
-                    continue  # explicit null in the input may be dropped (absent == null for optional properties)
-                return f"{path}: key {k!r} lost"
-            d = jdiff(v, got[k], f"{path}.{k}")
+                if v is None and (optional_keys is None or k in optional_keys):
+                    continue  # explicit null in the input may be dropped (absent == null for optional PROPERTIES)
+                return f"{path}: key {k!r} lost" + (" (null map entry)" if v is None else "")
+            d = jdiff(v, got[k], f"{path}.{k}", optional_keys)
             if d:
                 return d
         for k, v in got.items():
